@@ -394,7 +394,7 @@ def death_case(payload: Tuple[str, int]) -> Dict[str, Any]:
     rep = Report("C19", tier, seed, "model_checking")
     root = fresh_dir(f"c19-death-{os.getpid()}")
     path = os.path.join(root, ".locks", "metadata.lock")
-    env = dict(os.environ, PYTHONHASHSEED="0", PYTHONPATH="/repo/src:/verif")
+    env = dict(os.environ, PYTHONHASHSEED="0")  # PYTHONPATH inherited: the tree under test comes first
     # how many file_lock-level steps does acquire+release take?
     out = subprocess.run([sys.executable, "-c", _CHILD, path, "0"], env=env, capture_output=True, text=True, timeout=120)
     if "steps" not in out.stdout:
